@@ -347,7 +347,11 @@ structure RestrictInv (indptr : List Nat) (p : Nat → Nat → Bool) (c L : Nat)
   prefUp : ∀ v ∈ S, (prefOf indptr r.1 r.2 (c+1) v).Perm (prefOf indptr ix b2 (c+1) v)
   prefNew : ∀ i, i < t → i < b2.nsAt c →
     (prefOf indptr r.1 r.2 c (b2.sub c i)).Perm (S'.filter (p (b2.sub c i))) ∧
-      indptr.getD (b2.sub c i) 0 + r.2.deg c (b2.sub c i) ≤ indptr.getD (b2.sub c i + 1) 0
+      indptr.getD (b2.sub c i) 0 + r.2.deg c (b2.sub c i) ≤ indptr.getD (b2.sub c i + 1) 0 ∧
+      r.2.deg c (b2.sub c i) ≤ b2.deg (c+1) (b2.sub c i)
+  /-- only cells inside the level-`c+1` windows of the new candidates are written -/
+  outside : ∀ x, (∀ v ∈ S', x < indptr.getD v 0 ∨ indptr.getD v 0 + b2.deg (c+1) v ≤ x) →
+    r.1.getD x 0 = ix.getD x 0
 
 theorem restrict_fold (indptr : List Nat) (p : Nat → Nat → Bool) (c kn n m L : Nat) (K : KernelCtx indptr n L m)
     (hc2 : 2 ≤ c) (hck : c < kn) (ix : List Nat) (b2 : Box) (hsh : b2.Shape kn n m) (hlen : ix.length = L)
@@ -366,7 +370,7 @@ theorem restrict_fold (indptr : List Nat) (p : Nat → Nat → Bool) (c kn n m L
   | zero =>
     intro _
     refine ⟨⟨hlen, fun _ _ _ => rfl, fun _ _ _ => rfl, fun _ _ => rfl, fun _ => rfl, fun _ => rfl,
-      fun _ _ => List.Perm.refl _, ?_⟩, hsh⟩
+      fun _ _ => List.Perm.refl _, ?_, fun _ _ => rfl⟩, hsh⟩
     intro i hi; omega
   | succ t ih =>
     intro ht
@@ -402,7 +406,7 @@ theorem restrict_fold (indptr : List Nat) (p : Nat → Nat → Bool) (c kn n m L
       apply hp.outside
       have := K.disjoint hw hvn hne x h1 h2
       omega
-    refine ⟨by rw [hp.len, inv.len], ?_, ?_, ?_, ?_, ?_, ?_, ?_⟩
+    refine ⟨by rw [hp.len, inv.len], ?_, ?_, ?_, ?_, ?_, ?_, ?_, ?_⟩
     · intro l w hl
       rw [hp.same.deg l w (Or.inl hl)]; exact inv.degF l w hl
     · intro i hi1 hi2
@@ -477,23 +481,30 @@ theorem restrict_fold (indptr : List Nat) (p : Nat → Nat → Bool) (c kn n m L
               exact ⟨(hlab x hxS).1 hq, hpx⟩
             · rintro ⟨hxS', hpx⟩
               exact ⟨⟨hsub x hxS', hpx⟩, (hlab x (hsub x hxS')).2 hxS'⟩
-        · rw [hdv]; omega
+        · refine ⟨by rw [hdv]; omega, ?_⟩
+          rw [hdv, ← hdegUp]; omega
       · have hi3 : i < t := by omega
         have hw' : b2.sub c i ∈ S' := by rw [hS']; exact mem_subList.2 ⟨i, hi2, rfl⟩
         have hne : b2.sub c i ≠ v := by
           intro e
           have := subList_inj (hS' ▸ hS'nd) hi2 (by omega) (e.trans hv.symm)
           omega
-        obtain ⟨hq1, hq2⟩ := inv.prefNew i hi3 hi2
+        obtain ⟨hq1, hq2, hq3⟩ := inv.prefNew i hi3 hi2
         have hwn : b2.sub c i < n := hSlt _ (hsub _ hw')
         have hdeq : r'.2.deg c (b2.sub c i) = r.2.deg c (b2.sub c i) := hp.same.deg c _ (Or.inr hne)
-        constructor
+        refine ⟨?_, ?_, ?_⟩
         · refine List.Perm.trans ?_ hq1
           unfold prefOf
           rw [hdeq, sliceOf_congr r'.1 r.1]
           intro x h1 h2
           exact houtside _ hwn hne x h1 (by omega)
         · rw [hdeq]; exact hq2
+        · rw [hdeq]; exact hq3
+    · -- outside the windows nothing is written
+      intro x hx
+      have hxv := hx v hvS'
+      rw [hp.outside x (by rw [hdegUp]; omega)]
+      exact inv.outside x hx
 
 end SkNet.Topology
 
@@ -578,11 +589,18 @@ theorem sliceOf_range (l : List Nat) (a d : Nat) :
   intro i _
   simp [Nat.add_comm]
 
+/-- what a call does to `indices`: it permutes the level-`c` windows of its candidates and writes nothing else -/
+structure IxPost (indptr : List Nat) (L c : Nat) (S : List Nat) (b : Box) (ix ix' : List Nat) : Prop where
+  len : ix'.length = L
+  win : ∀ v ∈ S, (prefOf indptr ix' b c v).Perm (prefOf indptr ix b c v)
+  outside : ∀ x, (∀ v ∈ S, x < indptr.getD v 0 ∨ indptr.getD v 0 + b.deg c v ≤ x) → ix'.getD x 0 = ix.getD x 0
+
 /-- what a call at level `c` returns -/
 def CallSpec (indptr : List Nat) (p : Nat → Nat → Bool) (kn n m L c : Nat) : Prop :=
   ∀ (ix : List Nat) (b : Box), LevelInv indptr p kn n m L c ix b →
     (cliquesFrom indptr c ix b).1 = orientedCount p c (subList b c) ∧
-      (cliquesFrom indptr c ix b).2.Shape kn n m ∧ Frame c b (cliquesFrom indptr c ix b).2
+      (cliquesFrom indptr c ix b).2.2.Shape kn n m ∧ Frame c b (cliquesFrom indptr c ix b).2.2 ∧
+      IxPost indptr L c (subList b c) b ix (cliquesFrom indptr c ix b).2.1
 
 /-- one round of the loop of level `c+1`: collect, restrict, recurse, restore -/
 theorem level_step (indptr : List Nat) (p : Nat → Nat → Bool) (kn n m L c : Nat) (K : KernelCtx indptr n L m)
@@ -592,9 +610,10 @@ theorem level_step (indptr : List Nat) (p : Nat → Nat → Bool) (kn n m L c : 
     let b2 := collectSub indptr ix (c+1) u (b.setNs c 0)
     let ib3 := restrictSub indptr (c+1) ix b2
     let r4 := cliquesFrom indptr c ib3.1 ib3.2
-    let b5 := restoreLab (c+1) r4.2
+    let b5 := restoreLab (c+1) r4.2.2
     r4.1 = orientedCount p c ((subList b (c+1)).filter (p u)) ∧
-      LevelInv indptr p kn n m L (c+1) ib3.1 b5 ∧ Frame (c+1) b b5 := by
+      LevelInv indptr p kn n m L (c+1) r4.2.1 b5 ∧ Frame (c+1) b b5 ∧
+      IxPost indptr L (c+1) (subList b (c+1)) b ix r4.2.1 := by
   intro b2 ib3 r4 b5
   -- abbreviations
   have hsh := inv.shape
@@ -675,7 +694,7 @@ theorem level_step (indptr : List Nat) (p : Nat → Nat → Bool) (kn n m L c : 
     · intro v hv; rw [hS3'] at hv; exact inv.lt v (hWsub v hv)
     · intro v hv; rw [hS3'] at hv
       obtain ⟨i, hi, e⟩ := hpos v hv
-      have := (rinv.prefNew i hi hi).2
+      have := (rinv.prefNew i hi hi).2.1
       rw [e] at this; exact this
     · intro v hv; rw [hS3'] at hv ⊢
       obtain ⟨i, hi, e⟩ := hpos v hv
@@ -683,26 +702,27 @@ theorem level_step (indptr : List Nat) (p : Nat → Nat → Bool) (kn n m L c : 
       rw [e] at this; exact this
     · intro v hv; rw [hS3'] at hv
       rw [rinv.labF, cinv.lab, if_pos ((hmemW v).2 hv)]
-  obtain ⟨hcnt, sh4, fr4⟩ := ih ib3.1 ib3.2 inv3
+  obtain ⟨hcnt, sh4, fr4, ixp4⟩ := ih ib3.1 ib3.2 inv3
   have hr4 : cliquesFrom indptr c ib3.1 ib3.2 = r4 := rfl
-  rw [hr4] at hcnt sh4 fr4
+  rw [hr4] at hcnt sh4 fr4 ixp4
+  rw [hS3'] at ixp4
   -- restore
-  have hns4 : r4.2.nsAt c = b2.nsAt c := by rw [fr4.ns c (Nat.le_refl _), rinv.nsF]
-  have hsub4 : ∀ i, r4.2.sub c i = b2.sub c i := fun i => by rw [fr4.sub c i (Nat.le_refl _), rinv.subF]
-  obtain ⟨sh5, hsub5, hns5, hdeg5, hlab5⟩ := restore_fold c kn n m r4.2 sh4
+  have hns4 : r4.2.2.nsAt c = b2.nsAt c := by rw [fr4.ns c (Nat.le_refl _), rinv.nsF]
+  have hsub4 : ∀ i, r4.2.2.sub c i = b2.sub c i := fun i => by rw [fr4.sub c i (Nat.le_refl _), rinv.subF]
+  obtain ⟨sh5, hsub5, hns5, hdeg5, hlab5⟩ := restore_fold c kn n m r4.2.2 sh4
     (fun i hi => by
       rw [hsub4]
       have : b2.sub c i ∈ subList b2 c := mem_subList.2 ⟨i, by rw [← hns4]; exact hi, rfl⟩
       rw [hS2'] at this
       exact inv.lt _ (hWsub _ this))
-    (r4.2.nsAt c) (Nat.le_refl _)
-  have hb5 : (List.range (r4.2.nsAt c)).foldl (fun b j => b.setLab (b.sub c j) (c+1)) r4.2 = b5 := rfl
+    (r4.2.2.nsAt c) (Nat.le_refl _)
+  have hb5 : (List.range (r4.2.2.nsAt c)).foldl (fun b j => b.setLab (b.sub c j) (c+1)) r4.2.2 = b5 := rfl
   rw [hb5] at sh5 hsub5 hns5 hdeg5 hlab5
   -- the labels are back
   have hlabBack : ∀ w, b5.labAt w = b.labAt w := by
     intro w
     rw [hlab5 w]
-    have hiff : (∃ i, i < r4.2.nsAt c ∧ r4.2.sub c i = w) ↔ w ∈ prefOf indptr ix b (c+1) u := by
+    have hiff : (∃ i, i < r4.2.2.nsAt c ∧ r4.2.2.sub c i = w) ↔ w ∈ prefOf indptr ix b (c+1) u := by
       rw [← hS2', mem_subList, hns4]
       constructor
       · rintro ⟨i, hi, e⟩; exact ⟨i, hi, by rw [← hsub4]; exact e⟩
@@ -724,21 +744,83 @@ theorem level_step (indptr : List Nat) (p : Nat → Nat → Bool) (kn n m L c : 
     rw [hdeg5, fr4.deg l w (by omega), rinv.degF l w (by omega), cinv.degF l w (by omega)]; rfl
   have hS5 : subList b5 (c+1) = subList b (c+1) :=
     subList_congr (hnsUp (c+1) (Nat.le_refl _)) (fun i => hsubUp (c+1) i (Nat.le_refl _))
-  refine ⟨?_, ?_, ⟨hlabBack, hnsUp, hsubUp, hdegUp⟩⟩
+  -- what the recursive call did to `indices`, seen from the windows of level `c+1`
+  have hdeg3 : ∀ w, ib3.2.deg (c+1) w = b.deg (c+1) w := fun w => by rw [rinv.degF (c+1) w (by omega), hdeg2]
+  have hwin4 : ∀ v ∈ subList b (c+1), (sliceOf r4.2.1 (indptr.getD v 0) (indptr.getD v 0 + b.deg (c+1) v)).Perm
+      (sliceOf ib3.1 (indptr.getD v 0) (indptr.getD v 0 + b.deg (c+1) v)) := by
+    intro v hv
+    have hvn := inv.lt v hv
+    have hbv := inv.bound v hv
+    -- cells of the segment of `v` beyond its level-`c` window (if it has one) are untouched
+    have hrest : ∀ x, indptr.getD v 0 ≤ x → x < indptr.getD (v+1) 0 →
+        (v ∈ prefOf indptr ix b (c+1) u → indptr.getD v 0 + ib3.2.deg c v ≤ x) →
+        r4.2.1.getD x 0 = ib3.1.getD x 0 := by
+      intro x h1 h2 h3
+      apply ixp4.outside
+      intro v' hv'
+      by_cases e : v' = v
+      · subst e; exact Or.inr (h3 hv')
+      · have hv'n : v' < n := inv.lt v' (hWsub v' hv')
+        have hb' := inv3.bound v' (by rw [hS3']; exact hv')
+        have := K.disjoint hvn hv'n (fun e' => e e'.symm) x h1 h2
+        omega
+    by_cases hvW : v ∈ prefOf indptr ix b (c+1) u
+    · obtain ⟨i, hi, e⟩ := hpos v hvW
+      have hle := (rinv.prefNew i hi hi).2.2
+      rw [e, hdeg2] at hle
+      rw [sliceOf_append r4.2.1 _ (indptr.getD v 0 + ib3.2.deg c v) _ (by omega) (by omega),
+        sliceOf_append ib3.1 _ (indptr.getD v 0 + ib3.2.deg c v) _ (by omega) (by omega)]
+      apply List.Perm.append
+      · exact ixp4.win v hvW
+      · rw [sliceOf_congr r4.2.1 ib3.1]
+        intro x h1 h2
+        exact hrest x (by omega) (by omega) (fun _ => h1)
+    · rw [sliceOf_congr r4.2.1 ib3.1]
+      intro x h1 h2
+      exact hrest x h1 (by omega) (fun h => absurd h hvW)
+  refine ⟨?_, ?_, ⟨hlabBack, hnsUp, hsubUp, hdegUp⟩, ⟨ixp4.len, ?_, ?_⟩⟩
   · rw [hcnt, hS3']
     exact orientedCount_perm' p c hWperm
-  · refine ⟨sh5, rinv.len, by rw [hS5]; exact inv.nodup, by rw [hS5]; exact inv.lt, ?_, ?_, ?_⟩
+  · refine ⟨sh5, ixp4.len, by rw [hS5]; exact inv.nodup, by rw [hS5]; exact inv.lt, ?_, ?_, ?_⟩
     · intro v hv; rw [hS5] at hv
       rw [hdegUp (c+1) v (Nat.le_refl _)]; exact inv.bound v hv
     · intro v hv; rw [hS5] at hv ⊢
-      have h1 : prefOf indptr ib3.1 b5 (c+1) v = prefOf indptr ib3.1 ib3.2 (c+1) v := by
-        unfold prefOf
-        rw [hdeg5, fr4.deg (c+1) v (by omega)]
-      rw [h1]
-      refine (rinv.prefUp v hv).trans ?_
-      rw [hpref2]; exact inv.pref v hv
+      unfold prefOf
+      rw [hdegUp (c+1) v (Nat.le_refl _)]
+      refine (hwin4 v hv).trans ?_
+      have h1 := rinv.prefUp v hv
+      unfold prefOf at h1
+      rw [hdeg3, hdeg2] at h1
+      refine h1.trans ?_
+      have h2 := inv.pref v hv
+      unfold prefOf at h2
+      exact h2
     · intro v hv; rw [hS5] at hv
       rw [hlabBack]; exact inv.lab v hv
+  · -- windows of level `c+1`: permuted
+    intro v hv
+    unfold prefOf
+    refine (hwin4 v hv).trans ?_
+    have h1 := rinv.prefUp v hv
+    unfold prefOf at h1
+    rw [hdeg3, hdeg2] at h1
+    exact h1
+  · -- nothing else is written
+    intro x hx
+    have h1 : r4.2.1.getD x 0 = ib3.1.getD x 0 := by
+      apply ixp4.outside
+      intro v' hv'
+      have hv'S := hWsub v' hv'
+      obtain ⟨i, hi, e⟩ := hpos v' hv'
+      have hle := (rinv.prefNew i hi hi).2.2
+      rw [e, hdeg2] at hle
+      have := hx v' hv'S
+      omega
+    rw [h1]
+    apply rinv.outside
+    intro v' hv'
+    rw [hdeg2]
+    exact hx v' (hWsub v' hv')
 
 end SkNet.Topology
 
@@ -753,12 +835,15 @@ def levelBody (indptr : List Nat) (c : Nat) (st : Nat × List Nat × Box) (i : N
   let b2 := collectSub indptr st.2.1 (c+3) u b1
   let ib3 := restrictSub indptr (c+3) st.2.1 b2
   let r4 := cliquesFrom indptr (c+2) ib3.1 ib3.2
-  (st.1 + r4.1, ib3.1, restoreLab (c+3) r4.2)
+  (st.1 + r4.1, r4.2.1, restoreLab (c+3) r4.2.2)
 
 theorem cliquesFrom_succ (indptr : List Nat) (c : Nat) (ix : List Nat) (b : Box) :
     cliquesFrom indptr (c+3) ix b =
-      (((List.range (b.ns.getD (c+3) 0)).foldl (levelBody indptr c) (0, ix, b)).1,
-       ((List.range (b.ns.getD (c+3) 0)).foldl (levelBody indptr c) (0, ix, b)).2.2) := rfl
+      (List.range (b.ns.getD (c+3) 0)).foldl (levelBody indptr c) (0, ix, b) := rfl
+
+theorem IxPost.refl (indptr : List Nat) (c : Nat) (S : List Nat) (b : Box) (ix : List Nat) :
+    IxPost indptr ix.length c S b ix ix :=
+  ⟨rfl, fun _ _ => List.Perm.refl _, fun _ _ => rfl⟩
 
 theorem level_loop (indptr : List Nat) (p : Nat → Nat → Bool) (kn n m L c : Nat) (K : KernelCtx indptr n L m)
     (hck : c + 2 < kn) (ih : CallSpec indptr p kn n m L (c+2))
@@ -766,39 +851,55 @@ theorem level_loop (indptr : List Nat) (p : Nat → Nat → Bool) (kn n m L c : 
     ∀ t, t ≤ b.nsAt (c+3) →
       let st := (List.range t).foldl (levelBody indptr c) (0, ix, b)
       LevelInv indptr p kn n m L (c+3) st.2.1 st.2.2 ∧ Frame (c+3) b st.2.2 ∧
+        IxPost indptr L (c+3) (subList b (c+3)) b ix st.2.1 ∧
         st.1 = ((List.range t).map fun i =>
           orientedCount p (c+2) ((subList b (c+3)).filter (p (b.sub (c+3) i)))).sum := by
   intro t
   induction t with
-  | zero => intro _; exact ⟨inv, Frame.refl _ _, rfl⟩
+  | zero =>
+    intro _
+    exact ⟨inv, Frame.refl _ _, ⟨inv.ixLen, fun _ _ => List.Perm.refl _, fun _ _ => rfl⟩, rfl⟩
   | succ t iht =>
     intro ht
-    obtain ⟨linv, fr, hacc⟩ := iht (by omega)
+    obtain ⟨linv, fr, ixp, hacc⟩ := iht (by omega)
     rw [List.range_succ, List.foldl_append]
-    generalize (List.range t).foldl (levelBody indptr c) (0, ix, b) = st at linv fr hacc
+    generalize (List.range t).foldl (levelBody indptr c) (0, ix, b) = st at linv fr ixp hacc
     simp only [List.foldl_cons, List.foldl_nil]
     have hS : subList st.2.2 (c+3) = subList b (c+3) :=
       subList_congr (fr.ns (c+3) (Nat.le_refl _)) (fun i => fr.sub (c+3) i (Nat.le_refl _))
     have hu : st.2.2.sub (c+3) t ∈ subList st.2.2 (c+3) :=
       mem_subList.2 ⟨t, by rw [fr.ns (c+3) (Nat.le_refl _)]; omega, rfl⟩
-    obtain ⟨h1, h2, h3⟩ := level_step indptr p kn n m L (c+2) K (by omega) hck ih st.2.1 st.2.2 linv
+    obtain ⟨h1, h2, h3, h4⟩ := level_step indptr p kn n m L (c+2) K (by omega) hck ih st.2.1 st.2.2 linv
       (st.2.2.sub (c+3) t) hu
-    refine ⟨h2, fr.trans h3, ?_⟩
-    show st.1 + _ = _
-    rw [List.map_append, List.sum_append_nat, ← hacc]
-    congr 1
-    simp only [List.map_cons, List.map_nil, List.sum_cons, List.sum_nil, Nat.add_zero]
-    rw [h1, hS, fr.sub (c+3) t (Nat.le_refl _)]
+    have hdeg : ∀ w, st.2.2.deg (c+3) w = b.deg (c+3) w := fun w => fr.deg (c+3) w (Nat.le_refl _)
+    refine ⟨h2, fr.trans h3, ⟨h4.len, ?_, ?_⟩, ?_⟩
+    · intro v hv
+      have hw := h4.win v (by rw [hS]; exact hv)
+      unfold prefOf at hw ⊢
+      rw [hdeg] at hw
+      exact hw.trans (ixp.win v hv)
+    · intro x hx
+      have h := h4.outside x (by
+        intro v hv
+        rw [hS] at hv
+        rw [hdeg]; exact hx v hv)
+      exact h.trans (ixp.outside x hx)
+    · show st.1 + _ = _
+      rw [List.map_append, List.sum_append_nat, ← hacc]
+      congr 1
+      simp only [List.map_cons, List.map_nil, List.sum_cons, List.sum_nil, Nat.add_zero]
+      rw [h1, hS, fr.sub (c+3) t (Nat.le_refl _)]
 
 /-- ○→★ `cliques_kernel_refines`: at every level the array kernel returns the recursive count of the
-    orientation on its candidate list, and leaves the box as the caller needs it -/
+    orientation on its candidate list, leaves the box as the caller needs it, and has only permuted the windows of
+    `indices` that belong to its candidates -/
 theorem cliquesFrom_spec (indptr : List Nat) (p : Nat → Nat → Bool) (kn n m L : Nat) (K : KernelCtx indptr n L m) :
     ∀ c, c + 2 ≤ kn → CallSpec indptr p kn n m L (c+2) := by
   intro c
   induction c with
   | zero =>
     intro _ ix b inv
-    refine ⟨?_, inv.shape, Frame.refl _ _⟩
+    refine ⟨?_, inv.shape, Frame.refl _ _, ⟨inv.ixLen, fun _ _ => List.Perm.refl _, fun _ _ => rfl⟩⟩
     show (List.range (b.ns.getD 2 0)).foldl (fun acc i => acc + b.deg 2 (b.sub 2 i)) 0 = _
     rw [foldl_add_eq_sum, Nat.zero_add]
     show _ = ((subList b 2).map fun u => orientedCount p 1 ((subList b 2).filter (p u))).sum
@@ -819,10 +920,10 @@ theorem cliquesFrom_spec (indptr : List Nat) (p : Nat → Nat → Bool) (kn n m 
   | succ c ihc =>
     intro hk ix b inv
     have ih := ihc (by omega)
-    obtain ⟨linv, fr, hacc⟩ := level_loop indptr p kn n m L c K (by omega) ih ix b inv (b.nsAt (c+3))
+    obtain ⟨linv, fr, ixp, hacc⟩ := level_loop indptr p kn n m L c K (by omega) ih ix b inv (b.nsAt (c+3))
       (Nat.le_refl _)
     rw [cliquesFrom_succ]
-    refine ⟨?_, linv.shape, fr⟩
+    refine ⟨?_, linv.shape, fr, ixp⟩
     show ((List.range (b.nsAt (c+3))).foldl (levelBody indptr c) (0, ix, b)).1 = _
     rw [hacc]
     show _ = ((subList b (c+3)).map fun u => orientedCount p (c+2) ((subList b (c+3)).filter (p u))).sum
